@@ -273,6 +273,11 @@ func genScenario(t *core.Tape, prop string, numCPU int) *Scenario {
 				rp.CtxKind = "deadline"
 				ds := []time.Duration{sc.Unit / 2, sc.Unit, 2 * sc.Unit, 4 * sc.Unit, 0}
 				rp.Deadline = ds[t.Draw(core.Fault, len(ds))]
+				// one nanosecond earlier or later, or exactly on the grid: a
+				// deadline that coincides with the flush timer (or another
+				// deadline) fires in an order the runtime picks; off the
+				// grid the tape has picked the order
+				rp.Deadline += time.Duration(t.Draw(core.Fault, 3) - 1)
 			}
 			// shape
 			nres := 1 + t.Weighted(core.Gen, 5, 3, 1)
